@@ -93,6 +93,7 @@ class C01(Prop):
             # reset() (carrier lost), then transmission B is entered late: all six fragments, then B's stream payloads
             lsfA = g.rand_lsf(0x0005); lsfB = g.rand_lsf(0x0005)
             keep = rng.sample(range(6), rng.randrange(1, 6))
+            lines.append("dec_reset"); exp.append(None)          # back to waiting for link setup (the collection above ended in stream mode)
             for k, n in enumerate(keep):
                 sb = S.stream_frame_bits(lsfA, n, k, bytes(rng.randrange(256) for _ in range(16)))
                 add(1, S.soft(sb, 7), None)
